@@ -28,7 +28,9 @@ Record c03case := mkCase {
   cp_other : N; cp_gray : N;                                 (* content id of the string "Other", number of the colour gray *)
   cp_cops : list cop;                                        (* category / subcategory requests in call order (by handle and by value) *)
   cp_req_sc : list (option nat);                             (* per request of cp_reqs: the subcategory handle it was given - None = CategoryHandle::OTHER, Some j = what the j-th cp_cops call returned *)
-  ob_cats : list (N * N * list N) }.                         (* meta.categories: name, colour, subcategories *)
+  ob_cats : list (N * N * list N);                           (* meta.categories: name, colour, subcategories *)
+  cp_mcats : list (nat * option nat);                        (* per add_marker call: thread handle, the category of the marker's schema (None = Other, Some j = what the j-th cp_cops call returned) *)
+  ob_mcats : list (list nat) }.                              (* per JSON thread: markers.category *)
 
 Fixpoint listnat_eqb (a b : list nat) : bool :=
   match a, b with [], [] => true | x :: a', y :: b' => Nat.eqb x y && listnat_eqb a' b' | _, _ => false end.
@@ -201,6 +203,9 @@ Definition verdict (c : c03case) : N :=
   let subs_ok := forallb (subs_in_range (ob_cats c)) (ob_tables c) in
   (* every marker's name and field values are the ones its add_marker call supplied (model: Model/MarkerTable.v) *)
   let markers_ok :=
+    Nat.eqb (length (ob_mcats c)) (length m_order) &&
+    forallb (fun x => listnat_eqb (map (fun m => match snd m with None => 0%nat | Some j => fst (nth j hs (0%nat, 0%nat)) end)
+                                       (filter (fun m => Nat.eqb (fst m) (fst x)) (cp_mcats c))) (snd x)) (combine m_order (ob_mcats c)) &&
     Nat.eqb (length (ob_markers c)) (length m_order) &&
     forallb (fun x => match model_markers (cp_mops c) (fst x) with Some l => markers_eqb l (snd x) | None => false end)
             (combine m_order (ob_markers c)) in
